@@ -980,3 +980,133 @@ Proof.
 Qed.
 
 End TConn.
+
+(* ------------------------------------------------------------------------------------------ *)
+(* Part E: Token::run with the ghost log; the theorem                                            *)
+(* ------------------------------------------------------------------------------------------ *)
+Definition Good (s : served) : Prop :=
+  match sv_closed s with Some L2 => answered_once s L2 | None => True end.
+
+Lemma tscript_of role : forall cur s, script_ok false role cur s -> writes_std s -> no_abandoned_read s -> tscript s.
+Proof.
+  induction 1 as [cur|cur n rest H IH|cur rest H IH|cur k rest H IH|cur s rest Hacc H IH|cur rest H IH
+                  |cur s n rest H IH|cur s rest H IH|cur d c rest Hd|cur k rest|cur n rest H IH|cur n rest H IH];
+    intros Hw Hna.
+  - constructor.
+  - constructor. apply IH; [inversion Hw; assumption|inversion Hna; assumption].
+  - constructor. apply IH; [inversion Hw; assumption|inversion Hna; assumption].
+  - constructor. apply IH; [inversion Hw; assumption|inversion Hna; assumption].
+  - constructor. apply IH; [inversion Hw; assumption|inversion Hna; assumption].
+  - constructor. apply IH; [inversion Hw; assumption|inversion Hna; assumption].
+  - constructor; [inversion Hw; assumption|]. apply IH; [inversion Hw; assumption|inversion Hna; assumption].
+  - constructor. apply IH; [inversion Hw; assumption|inversion Hna; assumption].
+  - constructor. exact Hd.
+  - constructor.
+  - constructor. apply IH; [inversion Hw; assumption|inversion Hna; assumption].
+  - inversion Hna.
+Qed.
+
+Lemma tscripts_of scripts : scripts_ok false scripts -> Forall writes_std scripts -> Forall no_abandoned_read scripts ->
+  Forall tscript scripts.
+Proof.
+  intros Hs Hw Hna. unfold scripts_ok in Hs. rewrite Forall_forall in Hs, Hw, Hna. apply Forall_forall. intros s Hin.
+  apply (tscript_of 0 _ s (Hs s Hin 0) (Hw s Hin) (Hna s Hin)).
+Qed.
+
+Lemma run_loop_log_ep norm maxc scripts : Forall tscript scripts ->
+  forall fuel p n w acc, parser_ok p -> sid (st p) -> world_ok w -> WI true w -> recs (wlog w) -> Forall Good acc ->
+  let '(o, w', l) := run_loop_log norm maxc fuel p scripts n w acc in Forall Good l.
+Proof.
+  intros Hscripts. induction fuel as [|f IH]; intros p n w acc Hp Hsid Wok W R HA; [exact HA|].
+  cbn [run_loop_log]. destruct (stopped w); [exact HA|].
+  pose proof (parse_request_ok norm maxc (io_fuel w 0) p [] w Hp Wok ltac:(apply Forall_nil) ltac:(rewrite len_nil; lia)
+                ltac:(rewrite io_fuel_eq; lia)) as PR.
+  pose proof (parse_request_fr maxc norm true (io_fuel w 0) p [] w W R) as PF.
+  pose proof (parse_request_sid norm maxc (io_fuel w 0) p [] w Hp Hsid Wok ltac:(apply Forall_nil) ltac:(rewrite len_nil; lia)) as PS.
+  unfold preq_post in PR.
+  destruct (parse_request norm maxc (io_fuel w 0) p [] w) as [[s0|k] w1|o w1]; [|exact HA|exact HA].
+  destruct PR as (G0 & S1 & _ & St0 & _). destruct PF as (W1 & R1 & Eo & Es).
+  cbv zeta.
+  set (rq := sreq s0) in *.
+  set (r0 := mkR s0 (len (role_input_streams (r_role rq)) <=? 1) false false).
+  match goal with |- context [run_handler maxc ?fu ?sc r0 ?ww] => set (w2 := ww); set (script := sc) end.
+  assert (GR0 : rgood r0).
+  { split; [exact G0|]. unfold wr_inv. subst r0. cbn [rsp rwriteable]. fold rq. rewrite St0. apply wr_inv_init. }
+  assert (Eob : output_buffer s0 = []).
+  { unfold output_buffer. rewrite Eo. apply drop_nil. }
+  assert (H0 : HI true r0 w1).
+  { split; [exact GR0|]. split; [exact (ws_ok _ _ S1 Wok)|]. split; [exact W1|]. split; [|intros _; reflexivity].
+    unfold FI, oinv. subst r0. cbn [rsp rlock]. rewrite Eob, Eo, Es. change (len (@nil N)) with 0.
+    split; [lia|]. split; [|intros _; exact R1]. rewrite app_nil_r. exact R1. }
+  assert (H2 : HI true r0 w2) by (subst w2; apply fold_ev_HI; exact H0).
+  assert (E2 : wlog w2 = wlog w1) by (subst w2; rewrite wlog_fold_ev; reflexivity).
+  assert (R2 : recs (wlog w2)) by (rewrite E2; exact R1).
+  assert (Hscript : tscript script).
+  { subst script. apply Forall_nth_default; [exact Hscripts|]. apply Forall_last; [exact Hscripts|constructor]. }
+  assert (T0 : TI (r_id rq) (wlog w2) r0 w2).
+  { split; [exact H2|]. split; [reflexivity|]. exists []. split; [symmetry; apply app_nil_r|].
+    subst r0. cbn [rsp rlock app]. rewrite Eob. split; [apply typed_nil|intros _; apply typed_nil]. }
+  pose proof (run_handler_TI maxc norm (r_id rq) (wlog w2) script Hscript (length script + 2) r0 w2 T0) as RH.
+  destruct (run_handler maxc (length script + 2) script r0 w2) as [[st r1] w3|o w3]; [|exact HA].
+  destruct RH as [T3 Hst].
+  pose proof T3 as (H3 & Hid3 & H & EH & TH1 & TH2).
+  pose proof H3 as (G3 & Wok3 & W3 & F3 & LK3).
+  pose proof (TH2 (LK3 eq_refl)) as THd.
+  assert (R3 : recs (wlog w3)) by (rewrite EH; apply recs_app; [exact R2|apply THd]).
+  assert (T3' : TI (r_id rq) (wlog w3) r1 w3).
+  { split; [exact H3|]. split; [exact Hid3|]. exists []. split; [symmetry; apply app_nil_r|].
+    cbn [app]. split; [|intros _; apply typed_nil]. apply (typed_cancel _ H _ (typed_recs _ _ THd) TH1). }
+  assert (CLOSE : forall d c, In d EXITSTATUS_VALUES ->
+            (forall app ps, exit_to_end d c = Some (app, ps) -> answered_with (mkServed rq st false [] [] None) app ps) ->
+    let '(o, w', l) :=
+      match do_close maxc r1 d c w3 with
+      | Halt o w4 => (o, w4, acc ++ [mkServed rq st (match do_writeable maxc r1 w3 with Ok (_, r2) _ => rwriteable r2 | Halt _ _ => false end)
+                                       (wlog w2) (wlog w3) None])
+      | Ok (inl rp) w4 => run_loop_log norm maxc f rp scripts (S n) w4
+                            (acc ++ [mkServed rq st (match do_writeable maxc r1 w3 with Ok (_, r2) _ => rwriteable r2 | Halt _ _ => false end)
+                                       (wlog w2) (wlog w3) (Some (wlog w4))])
+      | Ok (inr k) w4 => (ORet, w4, acc ++ [mkServed rq st (match do_writeable maxc r1 w3 with Ok (_, r2) _ => rwriteable r2 | Halt _ _ => false end)
+                                       (wlog w2) (wlog w3) (if k =? EK_Reset then Some (wlog w4) else None)])
+      end in
+    Forall Good l).
+  { intros d c Hd Hans.
+    set (gate := match do_writeable maxc r1 w3 with Ok (_, r2) _ => rwriteable r2 | Halt _ _ => false end).
+    assert (DONE : forall x w4, do_close maxc r1 d c w3 = Ok x w4 -> (x = inr EK_Reset \/ exists rp, x = inl rp) ->
+              Good (mkServed rq st gate (wlog w2) (wlog w3) (Some (wlog w4)))).
+    { intros x w4 E Hx.
+      destruct (do_close_typed maxc norm (r_id rq) (wlog w3) r1 d c w3 x w4 T3' E Hx) as (X & app & ps & TX & Ex & EL).
+      fold gate in EL.
+      unfold Good. cbn [sv_closed]. unfold answered_once. cbn [sv_req sv_start sv_ret sv_gate].
+      exists H, (X ++ (if gate then hdr_encode RT_Stdout (r_id rq) 0 0 ++ hdr_encode RT_Stderr (r_id rq) 0 0 else []) ++
+                 end_record app ps (r_id rq)), app, ps.
+      split; [exact EH|]. split; [exact EL|].
+      split; [apply whole_recs; exact R2|]. split; [apply whole_recs; apply THd|].
+      split; [apply whole_recs; apply recs_app; [apply TX|apply epilogue_part_recs]|].
+      split; [exact (proj2 THd)|]. split; [exact (Hans app ps Ex)|].
+      exists (decode X). split; [exact (proj2 TX)|].
+      rewrite (decode_app X _ (proj1 TX)), (decode_epilogue gate app ps (r_id rq) PS). reflexivity. }
+    pose proof (do_close_HI maxc norm true r1 d c w3 H3 Hd) as DC.
+    pose proof (do_close_ok norm maxc r1 d c w3 G3 Wok3 Hd) as DO. unfold close_post in DO.
+    destruct (do_close maxc r1 d c w3) as [[rp|k] w4|o w4] eqn:EC.
+    - destruct DC as (C1 & C2 & C3 & C4). destruct DO as (_ & Hst0 & _).
+      apply IH; [exact C1|rewrite Hst0; exact I|exact C2|exact C3|exact C4|].
+      apply Forall_snoc; [exact HA|]. apply (DONE _ _ eq_refl). right. exists rp. reflexivity.
+    - apply Forall_snoc; [exact HA|]. destruct (N.eqb_spec k EK_Reset) as [Hk|Hk]; [|exact I].
+      subst k. apply (DONE _ _ eq_refl). left. reflexivity.
+    - apply Forall_snoc; [exact HA|exact I]. }
+  destruct st as [[d c]|k].
+  - apply CLOSE; [exact Hst|]. intros app ps Hx. exact Hx.
+  - destruct ((k =? EK_Aborted) && raborted r1).
+    + apply CLOSE; [apply exit_complete_in|]. intros app ps Hx. cbn [answered_with sv_result]. apply abort_status_map. exact Hx.
+    + apply Forall_snoc; [exact HA|exact I].
+Qed.
+
+Theorem epilogue_records : epilogue_records_stmt.
+Proof.
+  intros norm maxc fuel B scripts w0 HB Wok Hlog Hnf S1 S2 Hs Hwk Hna.
+  assert (R0 : recs (wlog w0)) by (rewrite Hlog; apply recs_nil).
+  assert (W0 : WI true w0) by (split; [exact Hnf|intros _; split; assumption]).
+  exact (run_loop_log_ep norm maxc scripts (tscripts_of scripts Hs Hwk Hna) fuel (new_parser B) 0%nat w0 []
+           (new_parser_ok B HB) I Wok W0 R0 (Forall_nil _)).
+Qed.
+Print Assumptions epilogue_records.
